@@ -54,7 +54,7 @@ Theorem C20_worker_complete : forall cnt ch f w0 s,
 Proof. exact worker_complete. Qed.
 Print Assumptions C20_worker_complete.
 
-(* non-vacuity: standard runs of both pipelines over 3 iterations of every loop complete; some crash point
+(* non-vacuity: standard runs of both pipelines and of a worker over 3 iterations of every loop complete; some crash point
    among the first 200 steps of the single-process run over a previous successful output raises and
    does not leave the success marker *)
 Example C20_runs :
@@ -64,6 +64,9 @@ Example C20_runs :
    (r, st (wd s), all_four (wd s))) = (RNormal, SOk, true) /\
   existsb (fun k => let '(r, s) := run_prog pipeline (fun _ => 3) (ch_of ch_true_single) (crash_at k) w_prev_ok in
                     match r with RExc => negb (status_eqb (st (wd s)) SOk) | _ => false end) (seq 0 200) = true /\
+  (let '(r, s) := run_prog worker_body (fun _ => 3) (ch_of ch_true_single) no_fault w_fresh in
+   (r, all_four (wd s))) = (RNormal, true) /\
+  ch_of ch_true_single id_ch_tempfiles = false /\
   invb w_prev_ok = true /\ invb w_fresh = true.
 Proof. vm_compute. repeat split. Qed.
 Print Assumptions C20_runs.
